@@ -7,6 +7,7 @@
 package hfs
 
 import (
+	"os"
 	"bytes"
 	"strings"
 
@@ -181,15 +182,39 @@ func HarnessFS() {
 // succeeds only after all of that.
 func HarnessMetaInit() {
 	dir := vrt.TempDir()
+	// what an earlier, interrupted first Open may have left behind (C03: Open succeeds on every
+	// directory state a crash can leave): nothing; a temporary database whose pages never
+	// reached the disk (zeros); a short prefix of one
+	stale := vrt.Choice("stale", vrt.Param("stales", 3))
+	switch stale {
+	case 1:
+		os.WriteFile(dir+"/"+metadb.FileName+".tmp", make([]byte, 16384), 0644)
+		vrt.Reach("stale-zero-tmp")
+	case 2:
+		os.WriteFile(dir+"/"+metadb.FileName+".tmp", []byte{0, 0, 0, 0, 0, 0, 0, 0, 4, 0}, 0644)
+		vrt.Reach("stale-short-tmp")
+	}
 	vrt.OSFaults(vrt.Param("F", 0))
 	var db metadb.BoltMetaDB
 	_, err := db.Load(dir)
+	faulted := vrt.OSFaultsLeft() < vrt.Param("F", 0)
 	vrt.OSFaults(0)
+	vrt.Assert("C03-C07.load-succeeds-unless-an-injected-failure-hit-it", err == nil || faulted)
 	if err == nil {
 		vrt.Mark("LOADED")
 		db.Close()
 	} else {
 		vrt.Reach("load-failed")
+		// the failed attempt may leave its temporary file (complete or not) behind: the next
+		// attempt, with no failure injected, must succeed and leave a usable database
+		var db2 metadb.BoltMetaDB
+		_, err2 := db2.Load(dir)
+		vrt.Assert("C03-C07.load-after-interrupted-init-succeeds", err2 == nil)
+		if err2 == nil {
+			vrt.Assert("C03-C07.db-usable-after-interrupted-init", db2.SetStable([]byte("k"), []byte("v")) == nil)
+			db2.Close()
+			vrt.Reach("second-load-ok")
+		}
 	}
 	if !vrt.Symbolic() {
 		return
@@ -197,7 +222,7 @@ func HarnessMetaInit() {
 	final := dir + "/" + metadb.FileName
 	tmp := final + ".tmp"
 	ev := vrt.Events()
-	vrt.Assert("C07.meta-commits-are-synced-before-the-file-is-published", boltCommitsSynced(ev))
+	vrt.Assert("C07-C08.meta-commits-are-synced-before-the-file-is-published", boltCommitsSynced(ev))
 	for i, e := range ev {
 		switch {
 		case e.Op == "rename" && e.OK && e.Note == final:
@@ -224,7 +249,7 @@ func HarnessMetaInit() {
 					dirSynced = true
 				}
 			}
-			vrt.Assert("C07.meta-dir-fsync-before-use", renamed >= 0 && dirSynced)
+			vrt.Assert("C07-C08.meta-dir-fsync-before-use", renamed >= 0 && dirSynced)
 		case e.Op == "mark" && e.Path == "LOADED":
 			opened := false
 			for j := 0; j < i; j++ {
